@@ -201,6 +201,32 @@ func c05Header(c *h.Ctx) error {
 				}
 			}
 		}
+		// the same eight octets held in the other two representations of the field (MS-CIFS 2.2.3.1: a security signature;
+		// key / CID / sequence number of a connectionless transport): the header bytes are the same
+		if p == "" && merr == nil {
+			sec8 := k.Vals["SecurityFeatures"]
+			if len(sec8) == 8 {
+				sig := securityfeatures.NewSecurityFeaturesSecuritySignature()
+				var a8 [8]byte
+				copy(a8[:], sec8)
+				sig.SetSecuritySignature(a8)
+				cl := securityfeatures.NewSecurityFeaturesConnectionlessTransport()
+				cl.Key = uint32(sec8[0]) | uint32(sec8[1])<<8 | uint32(sec8[2])<<16 | uint32(sec8[3])<<24
+				cl.CID = uint16(sec8[4]) | uint16(sec8[5])<<8
+				cl.SequenceNumber = uint16(sec8[6]) | uint16(sec8[7])<<8
+				for name, rep := range map[string]securityfeatures.SecurityFeatures{"SecuritySignature": sig, "ConnectionlessTransport": cl} {
+					hd.SecurityFeatures = rep
+					var alt []byte
+					var aerr error
+					pa := h.Guard(func() { alt, aerr = hd.Marshal() })
+					c.Exec(1)
+					if pa != "" || aerr != nil || !bytes.Equal(alt, lib) {
+						c.Fail(site+".Marshal", "layout:SecurityFeatures:as-"+name, fmt.Sprintf("the eight octets %x held as %s: header %s (%v %s); held as reserved bytes: %s", sec8, name, h.Hex(alt), aerr, pa, h.Hex(lib)), sample)
+					}
+				}
+				hd.SecurityFeatures = sf
+			}
+		}
 		h2 := header.NewHeader()
 		var uerr error
 		p = h.Guard(func() { _, uerr = h2.Unmarshal(append([]byte{}, k.Wire...)) })
